@@ -351,6 +351,7 @@ class Leg:
         k = shard * self.stride
         total = self.total
         nviol = 0
+        nhang = 0
         while k < total:
             to = min(total, k + self.batch * step)
             r = self.invoke(tag, k, to, step)
@@ -378,6 +379,14 @@ class Leg:
                 self.record(st["cur"], key, detail, r, tag)
                 nviol += 1
                 k = st["cur"] + step
+                if key.startswith("hang:"):
+                    # every hang costs two watchdog intervals: two per shard are enough evidence
+                    nhang += 1
+                    if nhang >= 2:
+                        with self.lock:
+                            self.inconclusive.append("%s shard %d stopped after %d hangs at case %d of %d"
+                                                     % (self.name, shard, nhang, k, total))
+                        return
             else:
                 # died outside a case: at-exit leak report or teardown crash -> attribute per case
                 found = False
